@@ -61,8 +61,11 @@ def _product(vals, n):
 def random_plain_input(rng, no, ns):
     ol = [f"g{i}" for i in range(no)]
     sl = [SP_NAMES[i] for i in range(ns)]
-    return {"ot": random_plane_tree(rng, ol), "st": random_plane_tree(rng, sl),
-            "leafmap": {g: rng.choice(sl) for g in ol}}
+    d = {"ot": random_plane_tree(rng, ol), "st": random_plane_tree(rng, sl),
+         "leafmap": {g: rng.choice(sl) for g in ol}}
+    if rng.random() < 0.25:
+        d["brlen"] = rng.randrange(1, 1000)     # a quarter of the seeded inputs carry branch lengths in both Newick strings
+    return d
 
 
 def caterpillar(leaves, left=True):
